@@ -48,12 +48,12 @@ type exchange struct {
 	conn *connStat
 	b    *batch
 
-	mu       sync.Mutex
-	sent     *Sent
-	got      *Got
-	produced *Produced
-	plans    int // number of times the backend handled this tag
-	arrived  int32
+	mu           sync.Mutex
+	sent         *Sent
+	got          *Got
+	produced     *Produced
+	plans        int // number of times the backend handled this tag
+	arrived      int32
 	clientWindow int
 }
 
